@@ -24,13 +24,19 @@ def small_collection(S, kinds=("coding", "noncoding", "feature")):
         if kind == "feature":
             f = S.new(FEATURE, [s], [e], strand, feature_id=f"f{j}")
             kids.append(S.new(FCOL, [f], feature_collection_id="fc"))
+        elif kind == "mixed":
+            # a gene with a non-coding isoform (possibly flagged primary) next to a coding one: the gene is coding
+            nc = S.new(TRANSCRIPT, [s], [e], strand, transcript_id=f"tx{j}n", is_primary_tx=S.bool(f"primary{j}"))
+            cd = S.new(TRANSCRIPT, [s], [e], strand, transcript_id=f"tx{j}c", cds_starts=[s], cds_ends=[e],
+                       cds_frames=[zero])
+            kids.append(S.new(GENE, [nc, cd], gene_id=f"g{j}"))
         else:
             kw = dict(transcript_id=f"tx{j}")
             if kind == "coding":
                 kw.update(cds_starts=[s], cds_ends=[e], cds_frames=[zero])
             tx = S.new(TRANSCRIPT, [s], [e], strand, **kw)
             kids.append(S.new(GENE, [tx], gene_id=f"g{j}"))
-        info.append(NS(s=s, e=e, coding=(kind == "coding"), kind=kind))
+        info.append(NS(s=s, e=e, coding=(kind in ("coding", "mixed")), kind=kind))
     genes = [k for k, kd in zip(kids, kinds) if kd != "feature"]
     fcs = [k for k, kd in zip(kids, kinds) if kd == "feature"]
     col = S.new(AC, genes=genes, feature_collections=fcs)
@@ -42,6 +48,7 @@ def sample_collection(rng, n=3):
     for j in range(n):
         s = rng.choice([0, 1, 3, 6, 131070, 131072])
         d[f"s{j}"], d[f"e{j}"] = s, s + rng.choice([1, 2, 4, 131073])
+        d[f"primary{j}"] = rng.random() < 0.5
     return d
 
 
@@ -145,5 +152,5 @@ class ChildrenOrder3(ChildrenOrder):
 ChildrenOrder.tier = "thorough"
 K3 = ("coding", "noncoding", "feature")
 CASES = [QueryByPosition(True, ("coding", "feature")), QueryByPosition(False, ("coding", "feature")),
-         QueryByPosition(True, ("noncoding", "coding")),
+         QueryByPosition(True, ("noncoding", "coding")), QueryByPosition(False, ("mixed", "noncoding")),
          QueryByPosition(True, K3), QueryByPosition(False, K3), QueryValidation(), ChildrenOrder()]
